@@ -8,6 +8,8 @@
    when norm = true, by LFIProblem._normalize_weights. *)
 From Coq Require Import QArith List Bool Reals.
 From PL.C24 Require Import ModelLFIUpdate ProofsBasic ProofsRange ProofsMLE ProofsEM ProofsEMBlocks ProofsEMExample.
+From PL.C24 Require Import ProofsInstDefs ProofsInstDefsG ProofsInstDefsH ProofsInstLatent ProofsInstModel ProofsInstModelG
+  ProofsInstModelH ProofsInstCounts ProofsInstMonotoneH ProofsInstExample.
 Import ListNotations.
 Open Scope Q_scope.
 
@@ -107,7 +109,9 @@ Print Assumptions C24_mstep_categorical.
    with the 1e-6 clamp and the 1e-15 floor inactive.  Missing: the regrouping of the Q-function over
    several blocks and the instantiation of (a, kap) by the world table of ModelLFIUpdate.
    UPDATE: the regrouping over several blocks is proved below (C24_Q_decomposes ... C24_em_monotone);
-   the instantiation by the world table is still open, see the comment above C24_em_monotone. *)
+   the instantiation by the world table is still open, see the comment above C24_em_monotone.
+   UPDATE 2: the instantiation is done: the full statement is C24_em_monotone_model below (under the decidable side
+   conditions em_side_h, which include the hypothesis (#) without which the statement is false). *)
 Theorem C24_em_monotone_partial : forall (E Z : Type) (exs : list E) (m : E -> R) (zs : E -> list Z)
   (a : E -> Z -> R) (kap : E -> Z -> option nat) (ks : list nat) (avail : R),
   NoDup ks ->
@@ -187,12 +191,14 @@ Print Assumptions C24_mstep_maximises_Q.
    th is non-negative and every block is within its available mass.  No clamp / floor in this update: it is
    the exact expected-count update (= LFI's when the 1e-6 clamp and the 1e-15 floor are inactive).
 
-   WHAT THIS IS NOT: a theorem about [step true p exs th] of ModelLFIUpdate.  The statement
-       C24_em_monotone_model (NOT PROVED):  wf_prog p, wf_params p, wf_theta p th, forallb ad_ok p, multiplicities >= 1,
+   WHAT THIS IS NOT: a theorem about [step true p exs th] of ModelLFIUpdate.  UPDATE: the model-level statement
+   C24_em_monotone_model IS NOW PROVED further below (links L1-L3: C24_latent_space_sums_to_evidence,
+   C24_estep_is_posterior, C24_mstep_is_block_update); the text that follows is the original plan.  The statement
+       C24_em_monotone_model (not proved at that point):  wf_prog p, wf_params p, wf_theta p th, forallb ad_ok p, multiplicities >= 1,
          0 < pevidence th p e for every example, clamp and floor inactive,
          every AD with tunable heads has  psum th (tun_of c) == 1 - fixed_sum c     (#)
          ->  sum_e m_e * ln (pevidence (step true p exs th) p e)  >=  sum_e m_e * ln (pevidence th p e)
-   needs three links that are not formalised:
+   needs three links (now formalised, see below):
      L1 latent space: fmulti is NOT the weight of a row of [wtable] (there every clause always selects an outcome);
         a latent world must be a row with the selections of the clauses whose body is false, or that
         [queried] does not reach from the example, summed out (their outcome weights sum to 1 and the evidence
@@ -253,6 +259,99 @@ Theorem C24_update_without_none : forall (E Z : Type) (exs : list E) (m : E -> R
 Proof. exact update_without_none. Qed.
 Print Assumptions C24_update_without_none.
 
+(* ------------------------------------------------------------------ THE MODEL-LEVEL STATEMENT (ProofsInst*.v)
+   The abstract k-block EM instantiated by the executable LFI model of ModelLFIUpdate.v.  th = the parameter list
+   at the start of the iteration.  Instance (ProofsInstModel.v, ProofsInstModelG.v, ProofsInstModelH.v):
+     examples = the (multiplicity, interpretation) pairs, m_m = multiplicity;  latent worlds m_zs = ALL worlds of p;
+     blocks m_bs = clause numbers, outcomes m_ks b = options of clause b (head k, or "no head");
+     h_avail p b = 1 - (sum of the constant heads of clause b)   (1 for clauses without tunable head);
+     h_kap p b e z = Some (outcome of clause b in z) if clause b has a tunable head, e QUERIES the clause
+                     (ModelLFIUpdate.queried = Example.compile/add_queries), its body is true in z and the outcome is a
+                     tunable head or "no head";  None otherwise (also when a constant head of the clause is selected);
+     h_a th p e z  = [z consistent with e] * product, over the clauses switched off in z for e, of their outcome weight under th;
+     h_th th p b k = weight of outcome k of clause b under th if k is a tunable head or "no head" of a clause with a
+                     tunable head, 0 otherwise;
+     h_f th p = fmulti (h_a th p) (m_bs p) (h_kap p)  -- the gated complete-data likelihood;
+     LLm p exs th = sum_e m_e * ln (pevidence th p e)  -- the log-likelihood of the data under the model;
+     FBq / FPq th p exs i = sum over the examples e that query i of m_e * P(lfi_body i | e) / m_e * P(lfi_par i | e)
+                            (the two ratios of estep1, before the clamp). *)
+
+(* L1 (latent space).  For EVERY parameter list th' the gated complete-data likelihood, summed over all worlds, is the
+   probability of the evidence: a tunable clause whose body is false, or that the example does not query, may carry the
+   outcome weights it had under th -- its tunable/"no head" outcomes have the same total weight under th and th', and
+   neither the evidence nor the body of a queried clause depends on which of them is selected
+   (ProofsInstLatent.vals_indep, ProofsInstLatentG.rel_indep, ProofsInstLatentH.mixingH, ProofsInstSupports for [queried]). *)
+Theorem C24_latent_space_sums_to_evidence : forall p n th th' me,
+  wf_prog p = true -> wf_params p n = true ->
+  lik (m_zs p) (h_f th p) (h_th th' p) me = Q2R (pevidence th' p (snd me)).
+Proof. exact latent_space_sums_to_evidence_h. Qed.
+Print Assumptions C24_latent_space_sums_to_evidence.
+
+(* L2 (E-step).  The posterior of a latent world under th is the normalised row weight of the world table restricted to
+   the example, hence the posterior mass of any set S of rows is the ratio wsum(S)/P(e) that estep1 computes ... *)
+Theorem C24_estep_is_posterior : forall p n th me,
+  wf_prog p = true -> wf_params p n = true -> ~ pevidence th p (snd me) == 0 ->
+  (forall z, In z (worlds p) ->
+     post (m_zs p) (h_f th p) (h_th th p) me z =
+     (ind (ev_true (world_vals p z) (snd me)) * Q2R (wweight th p z) / Q2R (pevidence th p (snd me)))%R) /\
+  (forall S : wentry -> bool,
+     sumR (fun z => if S (z, world_vals p z, wweight th p z)
+                    then post (m_zs p) (h_f th p) (h_th th p) me z else 0%R) (worlds p) =
+     Q2R (wsum (ev_worlds (wtable th p) (snd me)) S / pevidence th p (snd me))).
+Proof.
+  exact (fun p n th me W WP NZ => conj (fun z Hz => posterior_is_table_row_h p n th me z W WP Hz)
+                                       (fun S => posterior_mass_h p n th me S W WP NZ)).
+Qed.
+Print Assumptions C24_estep_is_posterior.
+
+(* ... in particular the expected counts of the abstract EM are the sums of the E-step ratios of the model over the
+   examples that query the parameter: outcome k of block b = tunable head number i  =>  bcounts = FBq i *)
+Theorem C24_estep_counts : forall p exs th b k a i,
+  wf_prog p = true -> wf_params p (length th) = true -> ev_pos th p exs = true ->
+  (b < length p)%nat -> nth_error (heads (nth b p dcl)) k = Some (a, HTun i) ->
+  bcounts exs m_m (m_zs p) (h_a th p) (m_bs p) (h_kap p) (h_th th p) b k = Q2R (FBq th p exs i).
+Proof. exact estep_counts_h. Qed.
+Print Assumptions C24_estep_counts.
+
+(* L3 (M-step).  Under the decidable side conditions em_side_h (below), on every block whose expected total count is
+   not 0, one normalised iteration of the model is the block EM update, outcome by outcome (tunable fact:
+   c_true/(c_true + c_false); AD: (1 - constants) * c_k / sum c, the head-count factor of par_marg cancels in normalize1,
+   the "no head" outcome has expected count 0 because of (#); a block that no example queries keeps its values in the
+   model as in the EM).  On a block that is queried but never active (total 0) the EM keeps the parameters while LFI
+   resets the heads to 0; that case is covered in C24_em_monotone_model by ProofsEMBlocksZero (dead_block, LL_dominated). *)
+Theorem C24_mstep_is_block_update : forall p exs th, em_side_h p exs th = true ->
+  forall b k, (b < length p)%nat -> In k (m_ks p b) ->
+  btotal exs m_m (m_zs p) (h_a th p) (m_bs p) (m_ks p) (h_kap p) (h_th th p) b <> 0%R ->
+  em_update_blocks exs m_m (m_zs p) (h_a th p) (m_bs p) (m_ks p) (h_avail p) (h_kap p) (h_th th p) b k =
+  h_th (step true p exs th) p b k.
+Proof. exact mstep_is_block_update_h_side. Qed.
+Print Assumptions C24_mstep_is_block_update.
+
+(* MODEL-LEVEL EM MONOTONICITY: one normalised iteration [step true p exs th] of the executable LFI model does not
+   decrease the log-likelihood of the data.  em_side_h p exs th is the conjunction of the DECIDABLE conditions
+     wf_prog p, wf_params p (length th), wf_theta p th   (well-formed program / parameter numbering / all outcome weights are probabilities)
+     mult_pos exs                                        (multiplicities > 0)
+     ev_pos th p exs                                     (every example has positive probability under th; LFI drops the others)
+     clamp_inactive_q, floor_inactive_q                  (the 1e-6 clamp changes no queried posterior, the 1e-15 floor no expected count)
+     ads_full th p                                       ((#): the tunable heads of every AD with >= 2 tunable heads sum to 1 - constants)
+     forallb clause_ok p                                 (a clause with a tunable head is purely tunable or has >= 2 tunable heads,
+                                                          and its constant heads sum to less than 1)
+   Positive probability AFTER the step is a conclusion (C24_em_model_step_keeps_evidence), not a hypothesis.
+   NOT needed: that every example queries every parameter (relevant-only counting is what is proved), that every queried
+   block is active in some example, that ADs have no constant heads.
+   Without (#) the statement is false (Findings.v, two witnesses); a clause with exactly ONE tunable head next to constant
+   heads is excluded by clause_ok because there _update is not the EM update (it divides by P(body) instead of
+   P(body and no constant head selected)) -- the class of C24_single_tunable_with_constant_head_refuted. *)
+Theorem C24_em_monotone_model : forall p exs th, em_side_h p exs th = true ->
+  (LLm p exs th <= LLm p exs (step true p exs th))%R.
+Proof. exact em_monotone_model_h. Qed.
+Print Assumptions C24_em_monotone_model.
+
+Theorem C24_em_model_step_keeps_evidence : forall p exs th, em_side_h p exs th = true ->
+  forall me, In me exs -> 0 < pevidence (step true p exs th) p (snd me).
+Proof. exact em_model_step_keeps_evidence_h. Qed.
+Print Assumptions C24_em_model_step_keeps_evidence.
+
 (* ------------------------------------------------------------------ non-vacuity *)
 (* t(th)::f.   examples: f three times, \+f once *)
 Definition ex_prog : program := [Clause [(0%nat, HTun 0)] []].
@@ -305,3 +404,45 @@ Example C24_example_em :
    LL xe_exs (fun _ => 1) xe_zs (fmulti xe_a xe_bs xe_kap)
       (em_update_blocks xe_exs (fun _ => 1) xe_zs xe_a xe_bs xe_ks (fun _ => 1) xe_kap xe_th))%R.
 Proof. exact example_em_monotone. Qed.
+
+(* the side conditions of C24_em_monotone_model are satisfiable (all evaluated by vm_compute), on a program with one
+   tunable fact and one two-head tunable AD with a body:   t(1/2)::f.   t(1/4)::b; t(3/4)::c :- f.
+   data: {b} twice, {not b, not c}, {c};  they hold again after the step, and the step is the expected one *)
+Example C24_example_em_model_hyps :
+  em_side_h xi_prog xi_data xi_th = true /\
+  step true xi_prog xi_data xi_th = [3 # 4; 2 # 3; 1 # 3] /\
+  em_side_h xi_prog xi_data (step true xi_prog xi_data xi_th) = true.
+Proof. exact (conj xi_side (conj xi_step xi_side_again)). Qed.
+
+Example C24_example_em_model :
+  (LLm xi_prog xi_data xi_th <= LLm xi_prog xi_data [3 # 4; 2 # 3; 1 # 3])%R.
+Proof. exact xi_monotone. Qed.
+
+(* ... on   t(1/2)::f.  t(1/4)::b; t(3/4)::c :- f.  t(1/3)::g.  t(1/2)::d :- g.   with {b} twice, {not b, not c}, {c},
+   {not g, not d} twice: no example queries all parameters (relevant-only counting), and the block of d is queried but
+   its body is never true (expected total count 0: LFI resets d to 0) *)
+Example C24_example_em_model_relevant_only :
+  em_side_h xz_prog xz_data xz_th = true /\
+  step true xz_prog xz_data xz_th = [3 # 4; 2 # 3; 1 # 3; 0; 0] /\
+  em_side_h xz_prog xz_data (step true xz_prog xz_data xz_th) = true /\
+  qd xz_prog (2, [(1%nat, true)]) 3 = false /\ qd xz_prog (2, [(3%nat, false); (4%nat, false)]) 0 = false /\
+  seen_by xz_prog xz_data 4 = true /\ FPq xz_th xz_prog xz_data 4 == 0 /\
+  (LLm xz_prog xz_data xz_th <= LLm xz_prog xz_data [3 # 4; 2 # 3; 1 # 3; 0%Q; 0%Q])%R.
+Proof.
+  exact (conj xz_side (conj xz_step (conj xz_side_again
+          (conj (proj1 xz_features) (conj (proj1 (proj2 xz_features)) (conj (proj1 (proj2 (proj2 xz_features)))
+          (conj (proj2 (proj2 (proj2 xz_features))) xz_monotone))))))).
+Qed.
+
+(* ... and on   t(1/2)::f.  0.3::x; t(0.2)::b; t(0.5)::c :- f.   (a constant head inside the tunable AD) with {x} (queries f
+   only: the AD is not queried although the evidence is its constant head), {b} twice, {c}, {not b, not c}, {not x, not b} *)
+Example C24_example_em_model_constant_head :
+  em_side_h xh_prog xh_data xh_th = true /\
+  forallb pure_clause xh_prog = false /\
+  qd xh_prog (1, [(1%nat, true)]) 0 = true /\ qd xh_prog (1, [(1%nat, true)]) 1 = false /\
+  em_side_h xh_prog xh_data (step true xh_prog xh_data xh_th) = true /\
+  (LLm xh_prog xh_data xh_th <= LLm xh_prog xh_data (step true xh_prog xh_data xh_th))%R.
+Proof.
+  exact (conj xh_side (conj (proj2 (proj2 xh_features)) (conj (proj1 xh_features) (conj (proj1 (proj2 xh_features))
+          (conj xh_side_again xh_monotone))))).
+Qed.
